@@ -574,6 +574,10 @@ def install(ctx):
             core.wrap_function(mod, name, post_shadow)
 
 
+_tolerant = core.tolerant
+
+g_indexing, g_catalogue = _tolerant(g_indexing), _tolerant(g_catalogue)
+
 GROUPS = [
     {"name": "indexing", "fn": g_indexing, "quick": 40, "thorough": 400},
     {"name": "catalogue", "fn": g_catalogue, "quick": 48, "thorough": 480},
